@@ -15,7 +15,8 @@ LEVEL = "exploration"
 EXHAUSTIVE = True
 RULE = ("per data type: every value of the 8/16-bit types, every v = +-2^k + d (k<=65, |d|<=2) and range ends +-2 for the "
         "wider integer types (in range: exact bytes + round trip; out of range: must raise), every byte string of length "
-        "0..9 over the per-byte alphabet {00,01,7F,80,FF} (+ all 1- and 2-byte patterns) (right length: decode == "
+        "0..9 over the per-byte alphabet {00,01,7F,80,FF} (+ all 1- and 2-byte patterns), handed over as bytes / bytearray / "
+        "memoryview in rotation (right length: decode == "
         "little-endian value and re-encode == pattern; wrong length: must raise), REAL32/64 grid incl. subnormals, "
         "infinities, -0.0, NaN by bit pattern and out-of-range magnitudes, all 128 ASCII code points and every BMP "
         "code point (one string per 256-block); plus, for every ordered pair of numeric types, every sequence of <=3 "
@@ -228,7 +229,7 @@ def run_case(case, st):
         w, signed = codec.int_info(name)
         v = _var(name)
         if case.get("only") is not None:
-            pats = [bytes.fromhex(case["only"])]
+            pats = [bytes.fromhex(case["only"])] * (case.get("box", 0) + 1)      # (same position in the container rotation)
         elif case["full"]:
             pats = [bytes(p) for p in itertools.product(ALPHA, repeat=L)]
             if L in (1, 2):
@@ -242,11 +243,13 @@ def run_case(case, st):
                 st.caps.append("deadline reached inside a byte-pattern case")
                 break
             st.evaluations += 1
-            r, err = _dec(v, data)
+            # the codec takes any bytes-like object: the container type rotates with the pattern
+            box = (bytes, bytearray, memoryview)[i % 3]
+            r, err = _dec(v, box(data))
             if L == w // 8:
                 want = int.from_bytes(data, "little", signed=signed)
                 if r != want:
-                    st.violation(f"C04:decode:{name}:pattern", dict(case, only=data.hex()), want,
+                    st.violation(f"C04:decode:{name}:pattern:{box.__name__}", dict(case, only=data.hex(), box=i % 3), want,
                                  r if err is None else err)
                     continue
                 b, eerr = _enc(v, r)
